@@ -62,6 +62,41 @@ def election_args(entry, opts):
     return (Options(dict(opts)),)
 
 
+_CATALOGUE = {}
+
+
+def catalogue():
+    "rule name -> [(structure, options)] from vf/data/boundary_catalogue.json (tools/boundary_search.py)"
+    if not _CATALOGUE:
+        import os, json
+        path = os.path.join(os.path.dirname(os.path.abspath(__file__)), 'data', 'boundary_catalogue.json')
+        _CATALOGUE['_loaded'] = []
+        if os.path.exists(path):
+            for e in json.load(open(path))['entries']:
+                st = dict(e['s'])
+                st['lines'] = [(m, list(r)) for m, r in st['lines']]
+                st['family'] = 'B'
+                _CATALOGUE.setdefault(e['options']['rule'], []).append((st, dict(e['options'])))
+    return _CATALOGUE
+
+
+def catalogue_pick(rng, opts):
+    lst = catalogue().get(opts['rule'])
+    if not lst:
+        return None
+    st, o = rng.choice(lst)
+    import copy
+    st = copy.deepcopy(st)
+    if opts['rule'] in ('wigm', 'meek', 'warren'):
+        # the entry's own configuration (the coincidence belongs to its arithmetic), keeping presentation-only choices
+        o = dict(o)
+        if 'display' in opts and o.get('arithmetic') == 'fixed':
+            o['display'] = min(opts['display'], o.get('precision', 0))
+    else:
+        o = dict(opts)
+    return st, o
+
+
 def make_case(ctx, rng, weights=None, rules=None, snap_ballots=False, render=False, allow_eq=True,
               meek_rational=False, allow_rational=True, budget=None, big=None, tweak=None, mutate_s=None):
     weights = dict(weights or DEFAULT_WEIGHTS)
@@ -81,6 +116,12 @@ def make_case(ctx, rng, weights=None, rules=None, snap_ballots=False, render=Fal
         hit = (opts['precision'], 'int' if opts.get('integer_quota') else 'eps')
     if hit and rng.random() < (0.3 if opts['rule'].startswith('cfer') else 0.12) and 'G3' in weights:
         s = gen.g3b_exact_hit(rng, *hit)        # a transfer landing exactly on / beside the threshold
+    if s is None and rng.random() < 0.1 and 'G1' in weights:
+        # an election from the boundary catalogue: one in which this rule compared two exactly equal values somewhere
+        e = catalogue_pick(rng, opts)
+        if e is not None:
+            s, opts = e
+            ctx.count('cases_from_the_boundary_catalogue')
     if s is None:
         s = gen.pick(rng, weights, big)
     if opts.get('arithmetic') == 'rational' and opts['rule'] in ('meek', 'warren'):
